@@ -64,6 +64,29 @@ func (st *Stats) note(e *Entry, p *Plan, out *RunOut) {
 			st.Ops++
 		}
 	}
+	if len(p.Pre) > 0 {
+		st.Probes["runs-with-injected-faults"]++
+		for _, f := range p.Pre {
+			k := f.Kind
+			if f.Kind == "Arm" {
+				k = "armed-failure-of-" + strings.SplitN(f.Name, ":", 2)[0]
+			} else if f.Kind == "UnsetEnv" {
+				k = "environment-variable-removed"
+			}
+			st.Faults[k]++
+		}
+		// fired, not merely planned: callbacks that reported a failure
+		for _, ev := range out.Sched.Events {
+			if ev.B == "fail" {
+				st.Faults["fired:"+ev.Kind+"-failure"]++
+			}
+		}
+		for _, r := range out.Results {
+			if r.Err != "" || r.Panic != "" {
+				st.Probes["operations-that-failed-under-a-fault"]++
+			}
+		}
+	}
 	if out.Sched.Blocks > 0 {
 		st.Probes["runs-where-a-task-blocked-on-a-lock"]++
 	}
@@ -98,6 +121,9 @@ func mkViolation(prop, sig, detail string, e *Entry, p *Plan, out *RunOut) *Viol
 		v.Trace = out.Sched.Trace
 		v.Detail += "\nhistory:\n" + historyString(out.Results)
 	}
+	if len(p.Pre) > 0 {
+		v.Detail += fmt.Sprintf("faults injected before the tasks started: %v\n", p.Pre)
+	}
 	v.Detail += "plan:\n" + planString(p)
 	return v
 }
@@ -110,6 +136,7 @@ func CheckC05(e *Entry, src *choice.Src, st *Stats) *Violation {
 		maxT = 1
 	}
 	p := genReaderPlan(src, e.Cfg, minT, maxT, 10, false)
+	p.Pre = genFaults(src, e.Cfg)
 	out := RunPlan(e, p)
 	if st != nil {
 		st.note(e, p, out)
@@ -148,6 +175,7 @@ func svcSummary(cfg *gen.Cfg) []string {
 
 func judgeIdentity(prop string, e *Entry, p *Plan, out *RunOut) *Violation {
 	cancelled := map[int]bool{}
+	expected := map[*OpResult]bool{} // operations whose failure is the required outcome
 	for _, r := range out.Results {
 		if r.Op.Kind == "Cancel" {
 			cancelled[r.Op.Ctx%p.NCtx] = true
@@ -162,17 +190,29 @@ func judgeIdentity(prop string, e *Entry, p *Plan, out *RunOut) *Violation {
 				if r.Events > 0 {
 					return mkViolation(prop, "construction-under-cancelled-context:"+r.Op.Kind, fmt.Sprintf("%s ran %d user callbacks although its context had been cancelled", r.Op, r.Events), e, p, out)
 				}
-				r.Err, r.Panic = "", "" // the expected outcome: not an unexpected error below
-				r.Val = nil
+				expected[r] = true // the expected outcome: not an unexpected error below
 			}
 		}
 	}
 	for _, r := range out.Results {
+		if r.Op.Kind == "Cancel" || expected[r] {
+			continue
+		}
+		may, must, why := faultVerdict(e.Cfg, p.Pre, r.Op)
+		failed := r.Err != "" || r.Panic != ""
+		if failed && may && (r.Panic == "" || strings.HasPrefix(r.Op.Kind, "MustGetter")) {
+			// a fault reaches this operation: it may fail (a Must getter by panicking); a failed operation
+			// contributes no observation to the identity model
+			continue
+		}
+		if !failed && must {
+			return mkViolation(prop, "operation-succeeded-despite-fault:"+r.Op.Kind, fmt.Sprintf("%s succeeded although %s", r.Op, why), e, p, out)
+		}
 		if r.Panic != "" {
 			return mkViolation(prop, "operation-panicked:"+r.Op.Kind, fmt.Sprintf("%s panicked: %s", r.Op, r.Panic), e, p, out)
 		}
 		if r.Err != "" {
-			return mkViolation(prop, "unexpected-error:"+r.Op.Kind+":"+errClass(r.Err), fmt.Sprintf("%s failed although no fault is armed and every symbol exists: %s", r.Op, r.Err), e, p, out)
+			return mkViolation(prop, "unexpected-error:"+r.Op.Kind+":"+errClass(r.Err), fmt.Sprintf("%s failed although no fault reaches it and every symbol exists: %s", r.Op, r.Err), e, p, out)
 		}
 	}
 	groups := [][]*OpResult{out.Results}
@@ -255,6 +295,7 @@ func errClass(s string) string {
 // the race detector active under that schedule.
 func CheckC20(e *Entry, src *choice.Src, st *Stats) *Violation {
 	p := genReaderPlan(src, e.Cfg, 2, 8, 24, true)
+	p.Pre = genFaults(src, e.Cfg)
 	if src.Chance("multi-container", 1, 5) {
 		// several containers of the same generated type, constructed and used concurrently
 		p.Multi = true
@@ -304,15 +345,27 @@ func judgeC20(e *Entry, p *Plan, out *RunOut) *Violation {
 			fn[key]++
 		}
 	}
+	// under injected faults a service's constructor (or a parameter's function) may have succeeded while
+	// the service (the parameter) as a whole failed afterwards - a field, a call, a decorator, a later
+	// chunk - and was therefore not cached, any number of times (the runtime resolves all arguments
+	// before it reports an error). For a service or parameter with a fault in its closure the callback
+	// count is therefore not judged (the identity of the instances handed out still is); without a fault
+	// in its closure nothing of it may fail and the bound stays at one.
 	for key, n := range ctor {
 		name := strings.SplitN(key, "\x00", 2)[0]
 		if eff[name] == "shared" && n > 1 {
+			if may, _, _ := faultVerdict(e.Cfg, p.Pre, Op{Kind: "Get", Name: name}); may {
+				continue
+			}
 			return mkViolation("C20", "shared-constructed-more-than-once", fmt.Sprintf("shared service %q was successfully constructed %d times", name, n), e, p, out)
 		}
 	}
 	for key, n := range fn {
 		name := strings.SplitN(key, "\x00", 2)[0]
 		if n > 1 {
+			if may, _, _ := faultVerdict(e.Cfg, p.Pre, Op{Kind: "GetParam", Name: name}); may {
+				continue
+			}
 			return mkViolation("C20", "parameter-evaluated-more-than-once", fmt.Sprintf("parameter function %s(%q) was evaluated %d times on one container", "fn", name, n), e, p, out)
 		}
 	}
